@@ -323,6 +323,22 @@ def large_graphs():
         for i in range(1, k + 1):
             adj[i] = [0]
         out.append((f"hub_with_{k}_two_cycles", k + 1, adj))
+    # lollipops: a path of L nodes whose last node is the entry of a directed cycle of k nodes (the cycle closes at the node
+    # that sits L-1 deep on the DFS stack), for L around 16, 32 and 64; and fans: w sources released at once into one sink,
+    # one of them listing the sink twice
+    for L in (5, 15, 16, 17, 18, 31, 32, 33, 64, 65):
+        for k in (2, 3):
+            n = L + k - 1
+            adj = [[i + 1] for i in range(n)]
+            adj[n - 1] = [L - 1]
+            out.append((f"lollipop_path{L}_cycle{k}", n, adj))
+    for w in (8, 15, 16, 17, 33):
+        adj = [[w] for _ in range(w)] + [[]]
+        adj[0] = [w, w]
+        out.append((f"fan_{w}_sources_one_duplicate_edge", w + 1, adj))
+        adj2 = [[w, w + 1] for _ in range(w)] + [[w + 1], []]
+        adj2[w // 2] = [w, w + 1, w]
+        out.append((f"fan_{w}_sources_two_sinks_duplicate_in_the_middle", w + 2, adj2))
     k = 920
     adj = [[] for _ in range(k + 2)]
     adj[0] = list(range(1, k + 1))
